@@ -24,7 +24,7 @@ def holders_case(draw, broker):
         for _ in range(k):
             nmsg += 1
             ops.append({"op": "enq", "q": "qa", "topic": "t0", "prio": draw(st.sampled_from([5, 5, 0, 9])), "delay": None,
-                        "payload": f"p{nmsg}", "client": "p0", "timeout": draw(st.sampled_from([600, 600, 2, 4]))})
+                        "payload": f"p{nmsg}", "client": "p0", "timeout": draw(st.sampled_from([600, 600, 2, 4, 86400, 2 * 86400, 86400 + 3]))})
 
     burst(draw(st.integers(1, 6)))
     for i in range(ncons):
